@@ -1,6 +1,7 @@
 """C07 — spike-cluster index utilities partition the spikes (DESIGN 4/C07).  Set-theoretic definitions from the statement;
 NumPy functions are the assumed 1-D array theory of pyvc/npth.py."""
 from pyvc.contract import contract
+import contracts.lib  # noqa
 
 A = 'phylib/io/array.py'
 
@@ -15,3 +16,11 @@ contract(A, '_spikes_in_clusters', props=['C07'], params={'spike_clusters': 'arr
     ensures=[('strictly-increasing', 'all(result[i] < result[j] for i in range(len(result)) for j in range(i + 1, len(result)))'),
              ('only-spikes-of-requested-clusters', 'all(0 <= result[j] and result[j] < len(spike_clusters) and any(clusters[c] == spike_clusters[result[j]] for c in range(len(clusters))) for j in range(len(result)))'),
              ('every-spike-of-a-requested-cluster', 'all(implies(any(clusters[c] == spike_clusters[s] for c in range(len(clusters))), any(result[j] == s for j in range(len(result)))) for s in range(len(spike_clusters)))')])
+
+contract(A, '_index_of', props=['C07', 'C06', 'C15'], params={'arr': 'arr[int]', 'lookup': 'arr[int]'}, result='arr[int]',
+    requires=[('lookup-distinct', 'all(lookup[i] != lookup[j] for i in range(len(lookup)) for j in range(i + 1, len(lookup)))'),
+              ('lookup-entries-at-least-minus-1', 'all(lookup[i] >= -1 for i in range(len(lookup)))'),
+              ('every-element-is-in-the-lookup', 'all(any(lookup[i] == arr[k] for i in range(len(lookup))) for k in range(len(arr)))')],
+    # "the index-in-lookup helper agrees with its set-theoretic definition": result[k] is THE position of arr[k] in the lookup
+    ensures=[('same-length', 'len(result) == len(arr)'),
+             ('position-in-lookup', 'all(0 <= result[k] and result[k] < len(lookup) and lookup[result[k]] == arr[k] for k in range(len(arr)))')])
